@@ -984,6 +984,11 @@ func (p *Parser) parseSimpleStmt(forIn bool) Stmt {
 					p.errorExpected(x[1].Pos(), "identifier")
 					value = &Ident{Name: "_", NamePos: x[1].Pos()}
 				}
+			default:
+				p.error(x[0].Pos(),
+					"for-in statement takes at most 2 variables")
+				key = &Ident{Name: "_", NamePos: x[0].Pos()}
+				value = &Ident{Name: "_", NamePos: x[0].Pos()}
 			}
 			return &ForInStmt{
 				Key:      key,
